@@ -86,16 +86,21 @@ ITEMS = {
     'LuaMemberIndex::set_member_owner': fn(
         MB, 'LuaMemberIndex', 'set_member_owner', body_first=HASH, attrs=SPIN,
         requires='''keys_ok(), mwf(old(self)),
-            // the member is known to the index (call sites: ids taken from `members` / just added); without this the new
-            // `member_current_owner` entry is one that `remove` never sweeps (see the unit's findings)
-            inf_has(old(self).in_filed@, id.file_id, MemberOrOwner::Member(id))''',
-        proof=[(r'self\.add_in_file_object\(file_id, MemberOrOwner::Owner\(owner\)\);', 'before',
-                '''let ghost mco1 = self.member_current_owner@; let ghost inf0 = self.in_filed@;
-        proof { lemma_wf_set_current_owner(old(self).members@, old(self).member_current_owner@, old(self).owner_members@, inf0, id, owner); /*@C10.member.writer-wf.set_member_owner.step-current-owner*/ }'''),
+            // the bookkeeping file is the member id's own file (every call site passes `member_id.file_id`): Member(id) may only be
+            // recorded under the file its id names (member_wf clause 3), and that is where `remove` looks for it
+            file_id == id.file_id''',
+        proof=[(r'self\.add_in_file_object\([^;]*MemberOrOwner::Member\(id\)\);', 'after',
+                '''let ghost inf1 = self.in_filed@;
+        proof {
+            lemma_wf_record_member_only(old(self).members@, old(self).member_current_owner@, old(self).owner_members@, old(self).in_filed@, inf1, id); /*@C10.member.writer-wf.set_member_owner.step-member*/
+            lemma_wf_set_current_owner(old(self).members@, old(self).member_current_owner@, old(self).owner_members@, inf1, id, owner); /*@C10.member.writer-wf.set_member_owner.step-current-owner*/
+        }'''),
                (r'self\.add_in_file_object\(file_id, MemberOrOwner::Owner\(owner\)\);', 'after',
-                'proof { lemma_wf_record_owner(self.members@, mco1, self.owner_members@, inf0, self.in_filed@, file_id, owner); /*@C10.member.writer-wf.set_member_owner.step-owner*/ }')],
+                'proof { lemma_wf_record_owner(self.members@, self.member_current_owner@, self.owner_members@, inf1, self.in_filed@, file_id, owner); /*@C10.member.writer-wf.set_member_owner.step-owner*/ }')],
         ensures=', '.join([MEM_FRAME, OWN_FRAME]) + ''',
             mwf(final(self)) /*@C10.member.writer-wf.set_member_owner*/,
+            // the new member_current_owner entry is swept with the file: Member(id) is recorded under it, whether or not `members` knows the id
+            inf_has(final(self).in_filed@, file_id, MemberOrOwner::Member(id)) /*@C10.member.writer-records-member-for-file.set_member_owner*/,
             inf_has(final(self).in_filed@, file_id, MemberOrOwner::Owner(owner)) /*@C10.member.writer-records-owner-for-file.set_member_owner*/,
             forall|g: FileId, x: MemberOrOwner| inf_has(old(self).in_filed@, g, x) ==> inf_has(final(self).in_filed@, g, x)'''),
 }
@@ -132,8 +137,12 @@ TY = 'type/mod.rs'
 ITEMS.update({
     'LuaTypeOwner': {'src': {'file': DB + 'type/type_owner.rs', 'kind': 'enum', 'name': 'LuaTypeOwner'}, 'attrs': '#[derive(PartialEq, Eq, Hash)]'},
     'LuaTypeOwner::get_file_id': fn('type/type_owner.rs', 'LuaTypeOwner', 'get_file_id', ret='r', ensures='r == owner_file(*self) /*@C10.type.owner-file-is-the-file-of-its-id*/'),
-    'LuaDeclLocation': st('type/type_decl.rs', 'LuaDeclLocation', keep=['file_id', 'range']),
-    'LuaTypeDecl': st('type/type_decl.rs', 'LuaTypeDecl', keep=['simple_name', 'locations', 'id']),
+    'LuaDeclTypeKind': {'src': {'file': DB + 'type/type_decl.rs', 'kind': 'enum', 'name': 'LuaDeclTypeKind'}, 'attrs': '#[derive(Clone, Copy)]'},
+    'LuaTypeExtra': {'src': {'file': DB + 'type/type_decl.rs', 'kind': 'enum', 'name': 'LuaTypeExtra'}},
+    'LuaDeclLocation': st('type/type_decl.rs', 'LuaDeclLocation'),
+    'LuaTypeDecl': st('type/type_decl.rs', 'LuaTypeDecl'),
+    'LuaTypeDecl::new': fn('type/type_decl.rs', 'LuaTypeDecl', 'new', ret='r',
+                           ensures='r.locations@.len() == 1 && r.locations@[0].file_id == file_id && r.locations@[0].range == range /*@C10.type.new-decl-has-one-location-of-its-file*/, r.id == id, r.simple_name == name'),
     'LuaTypeIndex': st(TY, 'LuaTypeIndex'),
 })
 
@@ -171,16 +180,16 @@ ITEMS.update({
     'LuaTypeDecl::get_id': fn('type/type_decl.rs', 'LuaTypeDecl', 'get_id', ret='r', ensures='r == self.id'),
     'LuaTypeDecl::merge_decl': fn('type/type_decl.rs', 'LuaTypeDecl', 'merge_decl', rules=[('vec-extend-vec', {'count': 1})],
                                   ensures='final(self).locations@ == old(self).locations@ + other.locations@, final(self).simple_name == old(self).simple_name, final(self).id == old(self).id'),
-    'LuaTypeIndex::new': fn(TY, 'LuaTypeIndex', 'new', ret='r', ensures='type_winv(&r) /*@C10.type.writer-wf.new*/'),
+    'LuaTypeIndex::new': fn(TY, 'LuaTypeIndex', 'new', ret='r', ensures='type_winv(&r) && supers_listed(&r) /*@C10.type.writer-wf.new*/'),
     'LuaTypeIndex::add_file_namespace': fn(
         TY, 'LuaTypeIndex', 'add_file_namespace', requires=TWINV, body_first=HASH,
-        ensures='''type_winv(final(self)) /*@C10.type.writer-wf.add_file_namespace*/,
+        ensures='''type_winv(final(self)) /*@C10.type.writer-wf.add_file_namespace*/, supers_listed(old(self)) ==> supers_listed(final(self)) /*@C10.type.writer-keeps-supers-listed*/,
             final(self).file_namespace@ == old(self).file_namespace@.insert(file_id, namespace) /*@C10.type.namespace-keyed-by-its-file*/,
             names_frame(old(self), final(self)),
             final(self).file_using_namespace == old(self).file_using_namespace && final(self).file_types == old(self).file_types'''),
     'LuaTypeIndex::add_file_using_namespace': fn(
         TY, 'LuaTypeIndex', 'add_file_using_namespace', requires=TWINV, body_first=HASH,
-        ensures='''type_winv(final(self)) /*@C10.type.writer-wf.add_file_using_namespace*/,
+        ensures='''type_winv(final(self)) /*@C10.type.writer-wf.add_file_using_namespace*/, supers_listed(old(self)) ==> supers_listed(final(self)) /*@C10.type.writer-keeps-supers-listed*/,
             final(self).file_using_namespace@.contains_key(file_id)
                 && forall|g: FileId| g != file_id ==> #[trigger] final(self).file_using_namespace@.contains_key(g) == old(self).file_using_namespace@.contains_key(g)
                     && (old(self).file_using_namespace@.contains_key(g) ==> final(self).file_using_namespace@[g] == old(self).file_using_namespace@[g]) /*@C10.type.using-namespace-keyed-by-its-file*/,
@@ -206,29 +215,33 @@ ITEMS.update({
             lemma_ft_added(old(self).file_types@, self.file_types@, file_id, gid); /*@C10.type.writer-records-decl-for-file.step*/
             lemma_add_type_decl(old(self), self, file_id, gid, d0); /*@C10.type.writer-wf.step*/
         }''')],
-        ensures='''type_winv(final(self)) /*@C10.type.writer-wf*/,
+        ensures='''type_winv(final(self)) /*@C10.type.writer-wf*/, supers_listed(old(self)) ==> supers_listed(final(self)) /*@C10.type.writer-keeps-supers-listed*/,
             ft_listed(final(self).file_types@, file_id, type_decl.id) /*@C10.type.writer-records-decl-for-file*/'''),
     'LuaTypeIndex::add_generic_params': fn(
         TY, 'LuaTypeIndex', 'add_generic_params', body_first=HASH,
         requires=TWINV + ', old(self).full_name_type_map@.contains_key(decl_id)',
-        ensures='''type_winv(final(self)) /*@C10.type.writer-wf.add_generic_params*/,
+        ensures='''type_winv(final(self)) /*@C10.type.writer-wf.add_generic_params*/, supers_listed(old(self)) ==> supers_listed(final(self)) /*@C10.type.writer-keeps-supers-listed*/,
             final(self).generic_params@ == old(self).generic_params@.insert(decl_id, params)'''),
     'LuaTypeIndex::add_super_type': fn(
         TY, 'LuaTypeIndex', 'add_super_type', attrs=SPIN, body_first=HASH,
-        requires=TWINV + ''',
-            // the class is declared in that same file: its id is listed under `file_id` (otherwise `remove(file_id)` never visits supers[decl_id])
-            ft_listed(old(self).file_types@, file_id, decl_id)''',
+        requires=TWINV,
         proof=[(r'\}\s*$', 'before', '''proof {
             let v = self.supers@[decl_id]@; assert(v.drop_last() =~= (if old(self).supers@.contains_key(decl_id) { old(self).supers@[decl_id]@ } else { Seq::empty() }));
             lemma_add_super(old(self), self, decl_id, file_id); /*@C10.type.writer-wf.add_super_type.step*/
         }''')],
-        ensures='''type_winv(final(self)) /*@C10.type.writer-wf.add_super_type*/,
-            final(self).supers@.contains_key(decl_id) && final(self).supers@[decl_id]@.len() > 0 && final(self).supers@[decl_id]@.last().file_id == file_id /*@C10.type.super-recorded-with-its-file*/'''),
+        ensures='''
+            // what it does: the super list of decl_id (created if need be) gains one entry, InFiled { file_id, .. }, at its end; nothing else changes
+            super_added(old(self), final(self), decl_id, file_id) /*@C10.type.super-recorded-with-its-file*/,
+            type_winv(final(self)) /*@C10.type.writer-wf.add_super_type*/,
+            // the entry is filed under a class LISTED under file_id — where today's `remove(file_id)` looks for it — only if the caller
+            // makes it so; the real call sites do not always (findings T1/T2: the removal of such entries is the job of the sweep over
+            // all super lists that is being added to `remove`, clause C10.type.no-super-of-removed-file-anywhere of unit c10_remove2)
+            supers_listed(old(self)) && ft_listed(old(self).file_types@, file_id, decl_id) ==> supers_listed(final(self)) /*@C10.type.super-of-a-listed-class-stays-listed*/'''),
     'LuaTypeIndex::bind_type': fn(
         TY, 'LuaTypeIndex', 'bind_type', attrs=SPIN, body_first=HASH + ' let ghost c0 = cache;',
         requires=TWINV,
         proof=[(r'\}\s*$', 'before', 'proof { lemma_bind_type(old(self), self, owner, c0); /*@C10.type.writer-wf.bind_type.step*/ }')],
-        ensures='''type_winv(final(self)) /*@C10.type.writer-wf.bind_type*/,
+        ensures='''type_winv(final(self)) /*@C10.type.writer-wf.bind_type*/, supers_listed(old(self)) ==> supers_listed(final(self)) /*@C10.type.writer-keeps-supers-listed*/,
             final(self).types@.contains_key(owner),
             final(self).in_filed_type_owner@.contains_key(owner_file(owner)) && final(self).in_filed_type_owner@[owner_file(owner)]@.contains(owner) /*@C10.type.writer-records-owner-for-file*/'''),
 })
@@ -276,7 +289,7 @@ def prop_writer(name):
             ''' + OWN_FILE,
               proof=[(r'Some\(\(\)\)\s*\}\s*$', 'before',
                       'proof { lemma_prop_add(old(self).property_owners_map@, pom1, old(self).in_filed_owner@, self.in_filed_owner@, file_id, owner_id); /*@C10.property.every-owner-is-swept.step*/ }'),
-                     (r'self\.in_filed_owner\s*\.entry\(file_id\)', 'before', 'let ghost pom1 = self.property_owners_map@;')],
+                     (r'self\.in_filed_owner\s*\.entry\(', 'before', 'let ghost pom1 = self.property_owners_map@;')],
               ensures='''pwf(final(self)) /*@C10.property.every-owner-is-swept*/,
             r is Some ==> pinf_has(final(self).in_filed_owner@, file_id, owner_id) /*@C10.property.writer-records-owner-for-file*/''', ret='r')
 ITEMS.update({
@@ -314,6 +327,37 @@ ITEMS['LuaPropertyIndex::add_owner_map'] = fn(PR, 'LuaPropertyIndex', 'add_owner
             }
         }''')])
 
+ITEMS.update({
+    'add_type_decl::register': {
+        'src': {'kind': 'slice', 'name': 'register_decl', 'in': {'file': SRC + 'compilation/analyzer/decl/docs.rs', 'kind': 'fn', 'name': 'add_type_decl'},
+                'from': r'let id = if flag\.contains\(LuaTypeFlag::File\)', 'to': r'id\.clone\(\),\s*\),\s*\);',
+                'head': 'pub fn register_decl(type_index: &mut LuaTypeIndex, flag: FlagSet<LuaTypeFlag>, file_id: FileId, workspace_id: WorkspaceId, '
+                        'full_name: String, range: TextRange, kind: LuaDeclTypeKind) -> LuaTypeDeclId', 'tail': 'id'},
+        'ret': 'r', 'body_first': HASH,
+        'requires': 'keys_ok(), type_winv(old(type_index))',
+        'ensures': '''
+            // the only call site of LuaTypeIndex::add_type_decl establishes its preconditions (one location, of the analysed file; a
+            // file-scoped id names that same file): the invariant is kept with no further assumption
+            type_winv(final(type_index)) /*@C10.type.call-site-keeps-writer-wf*/,
+            supers_listed(old(type_index)) ==> supers_listed(final(type_index)),
+            ft_listed(final(type_index).file_types@, file_id, r) /*@C10.type.call-site-records-decl-for-file*/'''},
+})
+
+ITEMS.update({
+    'DbIndex::get_member_index_mut': fn('mod.rs', 'DbIndex', 'get_member_index_mut', ret='r',
+        ensures='*r == old(self).members_index, final(self).members_index == *final(r), final(self).types_index == old(self).types_index, '
+                'final(self).metatable_index == old(self).metatable_index, final(self).operator_index == old(self).operator_index'),
+    'common::add_member': {
+        'src': {'file': SRC + 'compilation/analyzer/common/mod.rs', 'kind': 'fn', 'name': 'add_member'},
+        'requires': 'keys_ok(), mwf(&old(db).members_index)', 'body_first': HASH, 'ret': 'r',
+        'ensures': '''
+            // the re-owning pair set_member_owner(owner, member_id.file_id, member_id) + add_member_to_owner(owner, member_id) as the analyzers issue
+            // it (this fn; the same two lines in unresolve/resolve.rs:160-163 and common/migrate_global_member.rs:40-41, 61-62): the member
+            // invariant is kept with no further assumption, whether or not the member exists
+            mwf(&final(db).members_index) /*@C10.member.call-site-keeps-writer-wf*/,
+            inf_has(final(db).members_index.in_filed@, member_id.file_id, MemberOrOwner::Owner(owner)) /*@C10.member.call-site-records-owner-for-file*/'''},
+})
+
 UNIT = {
     'items': ITEMS,
     'extra_rules': [
@@ -335,12 +379,12 @@ UNIT = {
          'contract overlay on the closure handed to Entry::or_insert_with: named result and `ensures` are added, the body expression is '
          'kept verbatim and Verus checks the ensures against it (clone of the interned id returns an equal id)'),
     ],
-    'allow': [r'external_body', r'uninterp spec fn (ident|text)\(&self\)',
+    'allow': [r'external_body', r'uninterp spec fn (ident|text)\(&self\)', r'uninterp spec fn smol_of\(s: Seq<char>\)',
               r'assume_specification<\'a, K: Eq \+ Hash \+ Borrow<Q>, V, S: BuildHasher, A: Allocator, Q: Hash \+ Eq \+ \?Sized>\[ HashMap::<K, V, S, A>::get_mut \]',
               r'assume_specification<\'a, K, V: Default> \[Entry::<\'a, K, V>::or_default\]',
               r'assume_specification<\'a, K, V, A: Allocator, F: FnOnce\(\) -> V> \[Entry::<\'a, K, V, A>::or_insert_with\]',
               r'assume_specification<T: PartialEq> \[<\[T\]>::contains\]'],
-    'min_obligations': 20,
+    'min_obligations': 100,
     'mutants': [
         # the seeded defect of the independent reviewer: Owner(owner) recorded under the file only when the owner is new
         {'name': 'member-owner-recorded-only-when-new', 'item': 'LuaMemberIndex::add_member',
@@ -354,6 +398,11 @@ UNIT = {
          'pattern': r'self\.add_in_file_object\(file_id, MemberOrOwner::Owner\(owner\)\);',
          'repl': 'if false { self.add_in_file_object(file_id, MemberOrOwner::Owner(owner)); }',
          'expect': r'C10\.member\.writer-records-owner-for-file\.set_member_owner'},
+        # the defect repaired by /repo 5c59cf7: the member_current_owner entry is not recorded under the file
+        {'name': 'set-member-owner-records-member-under-file-0', 'item': 'LuaMemberIndex::set_member_owner',
+         'pattern': r'self\.add_in_file_object\(file_id, MemberOrOwner::Member\(id\)\);',
+         'repl': 'self.add_in_file_object(FileId { id: 0 }, MemberOrOwner::Member(id));',
+         'expect': r'C10\.member\.(writer-wf\.set_member_owner|writer-records-member-for-file\.set_member_owner)'},
         {'name': 'add-member-to-owner-leaves-empty-owner', 'item': 'LuaMemberIndex::add_member_to_owner',
          'pattern': r'member_map\.add_member\(key, LuaMemberIndexItem::One\(id\)\);\s*return Some\(\(\)\);', 'repl': 'return Some(());',
          'expect': r'C10\.member\.(every-item-is-swept|add_member_to_owner\.touches-only-that-owner)'},
@@ -386,7 +435,7 @@ UNIT = {
          'expect': r'C10\.type\.owner-file-is-the-file-of-its-id'},
         {'name': 'super-recorded-with-file-0', 'item': 'LuaTypeIndex::add_super_type',
          'pattern': r'InFiled::new\(file_id, super_type\)', 'repl': 'InFiled::new(FileId { id: 0 }, super_type)',
-         'expect': r'C10\.type\.(writer-wf\.add_super_type|super-recorded-with-its-file)'},
+         'expect': r'C10\.type\.super-recorded-with-its-file'},
         {'name': 'file-scoped-name-registered-under-file-0', 'item': 'LuaTypeIndex::index_type_decl_name',
          'pattern': r'\.entry\(\*file_id\)', 'repl': '.entry(FileId { id: 0 })',
          'expect': r'C10\.type\.name-registered-in-its-scope'},
@@ -409,7 +458,75 @@ UNIT = {
          'repl': 'let mut s = HashSet::new(); s.insert(member_or_owner); self.in_filed.insert(file_id, s);',
          'expect': r'C10\.member\.bookkeeping-records-object-under-file'},
     ],
-    'trusted': [],
-    'not_covered': [],
-    'samples': [],
+    'trusted': [
+        'hashbrown::{HashMap,HashSet} -> std::collections (same API subset and documented behaviour for new/insert/get/get_mut/contains_key/entry; order never relied on)',
+        'vstd specifications of HashMap::{new,insert,get,contains_key,entry}, Entry::or_insert (shape reused), HashSet::{new,insert,default}, Vec::{new,push}, vec![..], HashMap/Vec::default',
+        'HashMap::get_mut: std doc contract as assume_specification (text of unit c10_remove2)',
+        'Entry::or_default: std doc contract as assume_specification (text of unit c20_globals); Entry::or_insert_with: std doc contract as assume_specification '
+        '(the function is called only for a vacant entry; the entry then holds its result)',
+        '<[T]>::contains (Vec::contains through deref): assume_specification WITHOUT contract (the invariants hold whatever it answers); likewise the derived '
+        '`!=` / `==` on LuaMemberId (not Structural: an opaque LuaSyntaxId inside) has no specified meaning and none is used',
+        'vx_vec_extend (external_body, body = v.extend(w)): Vec::extend with a Vec appends its elements in order (rule vec-extend-vec, LuaTypeDecl::merge_decl)',
+        'derive(PartialEq) is field-wise equality (Verus `Structural`) on FileId, LuaDeclId, LuaOperatorId, WorkspaceId, LuaPropertyId (repository derive lists kept); derive lists '
+        're-attached by hand on LuaMemberId, LuaOperatorOwner, LuaMemberOwner, MemberOrOwner, LuaTypeIdentifier, LuaTypeOwner, LuaSemanticDeclId, LuaSignatureId (only hashed as keys)',
+        'derived Clone returns an equal value: hand-written `impl Clone` shims (external_body, ensures r == *self) for LuaMemberOwner, LuaOperatorOwner, LuaTypeOwner, LuaTypeDeclId '
+        '(clone of the ArcIntern), LuaMemberKey, SmolStr, LuaSemanticDeclId; LuaMemberIndexItem::clone: same variant with the same ids',
+        'obeys_key_model for every key type (keys_ok(): derived Hash/Eq, String)',
+        'text-size TextSize/TextRange transcribed as plain structs, TextRange::start() = the field (text-size: `pub const fn start(self) -> TextSize { self.start }`); '
+        'rowan/smol_str/internment/flagset payloads opaque: SmolStr::{as_str,to_string} -> uninterp text(), SmolStr::new -> uninterp smol_of(text), LuaTypeDeclId::get_id -> uninterp ident(), '
+        'LuaTypeDeclId::{global,file,internal}: the interned identifier is the one built (shims with that ensures), get_simple_name / FlagSet::contains / AST get_range: no contract; '
+        '`enum LuaTypeFlag` = the enum the flagset `flags!` macro generates (variant list transcribed)',
+        'LuaMemberIndex::is_item_only_meta: shim WITHOUT contract (read-only `&self`; it consults the features of other members; its answer only selects which ids are merged)',
+        'LuaCommonProperty: projected to `visibility`; its constructor and setters (add_extra_*, add_decl_feature, add_attribute_use) are shims without contract (they write one property value only)',
+        'struct projections: LuaOperator (func dropped), LuaCommonProperty, DbIndex (to types_index, members_index, operator_index, metatable_index), LuaAnalyzer (to file_id, db): dropped fields are never '
+        'read or written by the code under proof',
+        'input assumption: fewer than 2^32 - 1 properties were ever created (`id_count: u32` is incremented per new property; `old(self).id_count < u32::MAX` is a precondition of the property writers)',
+        'PRECONDITIONS of the writers = obligations of their call sites. Discharged here for: LuaMetatableIndex::add (slice analyze_setmetatable::register), LuaTypeIndex::add_type_decl '
+        '(slice add_type_decl::register of decl/docs.rs), set_member_owner + add_member_to_owner (the real common::add_member). NOT discharged (basis: reading of the call sites): '
+        'add_operator (the id is new or re-registered for the same owner and meta method: ids are file + start offset of distinct tags / fields / name tokens; set_signature_to_default_call checks '
+        'get_operators(..).is_some() first; Table owners are registered from their own file by analyze_metable_field), add_generic_params (ids of declared types, doc/type_generic_header.rs), '
+        'the property writers (an owner id that carries a file is annotated from that file), add_member_to_owner / set_member_owner at the four call sites that repeat common::add_member\'s two lines '
+        '(unresolve/resolve.rs:160-163, common/migrate_global_member.rs:40-41 and 61-62, lua/stats.rs:265: all pass member_id.file_id)',
+        'unit c10_remove2\'s post-state of LuaTypeIndex::remove (`type_remove_post` = the hypotheses of its lemma_type_final) is TAKEN from that unit: lemma_remove_keeps_type_winv / '
+        'lemma_remove_keeps_supers_listed are about that relation; when `remove` gets the sweep over all super lists (proposed_fix_supers_sweep.diff of c10_remove2) the supers part of that relation '
+        'changes and the two lemmas must be re-based on the new clauses',
+    ],
+    'not_covered': [
+        'type_wf clause 2 (`supers_listed`: a super of file g is filed under a class listed under g) is NOT an invariant of the real code: add_super_type is called for classes that the file does not '
+        'declare (findings T1: doc/type_def_tags.rs analyze_class resolves the class by name, `---@using` makes that another file\'s class; T2: unresolve/resolve.rs try_resolve_class_constructor '
+        'adds a root class with the file of the call). add_super_type is proved to keep it only for a listed class; removing such entries is the job of the sweep over all super lists being added to '
+        '`remove` (clause C10.type.no-super-of-removed-file-anywhere of unit c10_remove2)',
+        'L5 (open known finding): common::bind_type -> merge_def_type_with_table -> common::add_member files members of another file\'s table under Type(class of file A) and records that under the member\'s '
+        'file; after remove(A) owner_members[Type(class)] and member_current_owner still name the removed class. member_wf (about member ids) is kept; no writer contract can make `remove` clean it, '
+        'because LuaMemberIndex::remove sweeps by member-id file only (c10_remove2 not_covered: "LuaMemberOwner owners that name a file-local type")',
+        'LuaPropertyIndex: only clause "every owner that carries a file is listed under it" (what c10_remove\'s C10.property.owners-of-file-gone needs). NOT stated: a property shared by owners listed under '
+        'different files, or annotated from several files (TypeDecl owners), is dropped by the first `remove` that visits one of its owners ("a property stays while any file still contributes to it" is not '
+        'what `remove` does); property_owners_map values always name a live property (`remove` of one sharer leaves the other\'s id dangling unless both are listed under the same file, which add_owner_map now does)',
+        'LuaGlobalIndex::add_global_decl: no contract — c10_remove2\'s clauses for LuaGlobalIndex::remove have no wf-style precondition',
+        'table_owners_cofiled: add_operator is proved to keep it when the caller registers a Table-owned operator from the table\'s file; the call site (analyze_metable_field: LuaOperator::new with the '
+        'analyzer\'s file_id for the owner built in analyze_setmetatable from the same file_id) is not extracted (LuaOperator is projected without `func`)',
+        'call sites of add_operator / add_generic_params / bind_type / the property writers / the other four re-owning sites: not extracted (AST plumbing); see `trusted`',
+        'LuaMemberIndex::{get_member_mut, get_members, ...}, LuaOwnerMembers::{set_resolved, set_unresolved}: `get_member_mut` hands out `&mut LuaMember`: a caller could change member_id through it '
+        '(fields are private to member/lua_member.rs and no setter for member_id exists: Rust privacy, not proved)',
+        'clear() of the five indexes (empties every map: trivially re-establishes the invariants) is not extracted',
+    ],
+    'samples': [
+        'LuaMemberIndex::add_member: member_wf kept; Member(id) and (owner not LocalUnresolve) Owner(owner) recorded under the member\'s own file',
+        'LuaMemberIndex::add_member_to_owner: under "Owner(owner) is recorded under id.file_id": only owner\'s entry changes, it is non-empty, each of its items holds `id` and ids the same key held before, '
+        'no empty list; member_wf kept at all eight exits',
+        'LuaMemberIndex::set_member_owner (file_id == id.file_id): member_wf kept; Member(id) and Owner(owner) recorded under file_id; common::add_member: member_wf kept without any assumption',
+        'LuaOperatorIndex::add_operator (id new or same owner/op): op_wf kept, id listed under operator.file_id, table_owners_cofiled kept for own-file registrations',
+        'LuaTypeIndex::add_type_decl (locations in file_id, file-scoped id of file_id): type_winv kept, id listed under file_id; the decl/docs.rs call site establishes the preconditions',
+        'LuaTypeIndex::{add_super_type, bind_type, add_generic_params, add_file_namespace, add_file_using_namespace, index_type_decl_name}: exact effect + type_winv kept',
+        'lemma_winv_wf: type_winv && supers_listed ==> type_wf;  lemma_remove_keeps_type_winv / _supers_listed: c10_remove2\'s post-state of remove(f) re-establishes them',
+        'LuaPropertyIndex::add_owner_map / add_* / get_or_create_property: every property_owners_map key that carries a file is listed under it',
+        'LuaMetatableIndex::add + analyze_setmetatable::register: metatable_cofiled kept',
+    ],
+    'findings': [
+        'P (repaired, /repo d4b0e6c): add_owner_map recorded only source_owner_id under the file -> property_owners_map kept Signature(removed file) -> id; see FINDING_property.md',
+        'M (repaired, /repo 5c59cf7): set_member_owner for an id without member (`t[k] = 1`, expression key) left member_current_owner[id] unswept',
+        'T1/T2 (open, sweep in remove pending): supers[class of another file] keeps InFiled{removed file, ..}',
+        'L5 (open known finding): members re-owned to a class of the removed file',
+        'all replayed on the real crate: /verif/replay/c10_writers_demo (exit 1 while a trace remains)',
+    ],
 }
